@@ -105,7 +105,8 @@ class CutplaceApp(object):
             "cid_path", metavar="CID-FILE", nargs="?", help="file containing a cutplace interface definition (CID)"
         )
         parser.add_argument("data_paths", metavar="DATA-FILE", nargs="*", help="data file(s) to validate")
-        args = parser.parse_args(argv[1:])
+        # NOTE: Options can also be specified between CID-FILE and DATA-FILE.
+        args = parser.parse_intermixed_args(argv[1:])
         if (args.cid_path == "") or ("" in (args.data_paths or [])):
             parser.error("name of CID-FILE and DATA-FILE must not be empty")
 
